@@ -5,6 +5,11 @@ V = os.path.dirname(os.path.dirname(os.path.abspath(__file__)))
 
 # id -> dict(level, engine, technique, text, note, design)
 CLAIMED = {
+ "C09": dict(level="fault_enumeration", engine="vsh-virtual",
+   technique="fd-table reference model vs kernel-level observation of the shell's descriptor table (open-file-description identity, access mode, inode, close-on-exec) before/during/after each command, re-run under every soft RLIMIT_NOFILE from 5 to 20 so that every descriptor allocation fails at every position",
+   text="12 command kinds x all single redirections (6 target descriptors x 8 operators x existing/missing/directory/non-directory parent/open/closed/close/here-document operands) x noclobber, half (quick) / all lists of length 2, 3*10^4 / 6*10^5 random lists of length 3; fault enumeration: every single redirection x kind x every descriptor limit 5..20 plus 3*10^4 / 8*10^5 random lists under random limits. Verdicts: table during == model, table after == before (exec: == modelled table), nothing at >= 10 left open, internal descriptors >= 10 with close-on-exec, file contents/creation as modelled, command not run after a failing redirection.",
+   note="Trusted: the fd-table model in checks/c09.rs; identities come from the virtual kernel (Rc pointer identity of open file descriptions). Under a lowered limit only the after-invariants are decided. Whether a here-document descriptor is open for output is treated as unspecified. Real-kernel redirections are sampled by C19.",
+   design="5/C09"),
  "C18": dict(level="exploration", engine="vsh-virtual",
    technique="line-based sequential reference model vs the probe trace of the complete shell, with standard input as a regular file (fd-0 offset probes), as a pipe written by a scheduler-controlled feeder in every split into <=3 chunks and random chunkings, as -c, through `.` and as a script operand",
    text="250 (quick) / 4000 generated scripts of 5-12 items (reads consuming following lines incl. in loops and multi-line groups, alias/option/portable-mode changes affecting later lines, multi-line compounds, here-documents, continuations, trailing `;`, data lines that would be visible or fatal if executed, a syntax error planted at a later line); ~8*10^4 (quick) runs; the trace, here-document bytes, fd-0 offsets and exit status must match the model in every feeding mode and chunking.",
